@@ -269,5 +269,6 @@ MANIFEST = dict(
     text="Theorems in Props/C13.lean over the declarative meaning Conforms: a|b accepts exactly the union, nested unions flatten "
          "without changing meaning, d1+d2 means the merged key table (right wins, relaxed if either), make_required means "
          "'conforms and the listed keys are present', alias means its target; tie: the combined schema produced by model and code "
-         "compared structurally; search: reference semantics evaluated with the real validate.",
+         "compared structurally; search: reference semantics evaluated with the real validate."
+         " Source pins: the normalised text of every anchor file is compared with the text the model was last validated against; a changed file is a broken obligation (no-failing-input-found unless the search finds an input).",
     note="Trusted: Lean kernel + standard axioms, hand model (sampling tie), codec.")
